@@ -40,6 +40,10 @@ fn transforms() -> Vec<Xf> {
         [1000., 0., 0., 1000., 0., 0.],
         [1., 0., 0., 1., 3990., -3990.],
         [1e-30, 0., 0., 1e-30, 0., 0.],
+        // one axis stretched enormously while the determinant stays moderate
+        [1e8, 0., 0., 1., 0., 0.],
+        [1., 0., 0., 1e8, 0., 0.],
+        [3e7, 0., 0., 1e-3, 0., 0.],
     ]
 }
 
@@ -116,6 +120,10 @@ fn paths() -> Vec<PathSpec> {
         p(vec![M(0., 0.), L(1e-40, 1e-40)]),
         p(vec![M(0., 0.), L(1e-40, 1e-40), L(2.5, 1.0)]),
         p(vec![M(1., 1.), L(1.0 + 1e-7, 1.0), L(1e-41, 2e-41), Z]),
+        // curves in user units of 1e-8 along one axis (for the one-axis stretches of transforms())
+        p(vec![M(0., 0.), Q(1e-8, 1.0, 2e-8, 0.5), L(1e-8, 1.5)]),
+        p(vec![M(0., 0.), C(1.0, 1e-8, 2.0, 0.0, 0.5, 2e-8), Z]),
+        p(vec![M(0., 0.), Q(3e-8, 900., 6e-8, 100.)]),
     ]
 }
 
